@@ -323,6 +323,50 @@ def rule_k2(ctx) -> None:
         )
 
 
+def rule_k3(ctx) -> None:
+    """What is stored must be what an uncached run would have produced for *any* later caller: the statistics written
+    next to the rows are the dictionary the pipeline filled - unconditionally, not only when this caller asked for them."""
+    ctx.rule("C12-K3", "the stats stored in a cache entry are the dictionary handed to __run_pipeline, on every path", 1)
+    prog = ctx.prog
+    rb = prog.func(BAL + ".__rebalance_batch")
+    runs = [c for c in calls(rb) if (ctx.res.resolve_callee(c, rb) or (None, ""))[1] == BAL + ".__run_pipeline"]
+    writes = [c for c in calls(rb) if isinstance(c.func, ast.Attribute) and c.func.attr == "write_cache" and len(c.args) >= 2]
+    ctx.require(runs and writes, "__rebalance_batch no longer runs the pipeline and writes the cache")
+    runf = prog.func(BAL + ".__run_pipeline")
+    for w in writes:
+        payload = w.args[1]
+        stored = None
+        if isinstance(payload, ast.Dict):
+            for k, v in zip(payload.keys, payload.values):
+                if const_str(k) == "stats":
+                    stored = v
+        for r in runs:
+            arg = r.args[1] if len(r.args) >= 2 else next((k.value for k in r.keywords if k.arg == (runf.params[2] if len(runf.params) > 2 else "stats")), None)
+            ok = isinstance(stored, ast.Name) and isinstance(arg, ast.Name) and stored.id == arg.id
+            ctx.instance("C12-K3", "entry stores stats=%s; pipeline is given %s" % (unparse(stored) if stored is not None else None, unparse(arg) if arg is not None else None), rb.loc(r), ok=ok)
+            if not ok:
+                ctx.finding("C12-K3", "Balancer.__rebalance_batch:stored-stats", rb.loc(r), "the pipeline is handed %s while the cache entry stores %s: a run that does not ask for statistics writes an entry without them, and a later run that hits this entry reports incomplete counts" % (unparse(arg) if arg is not None else "no stats dictionary", unparse(stored) if stored is not None else "something else"))
+
+
+def rule_k4(ctx) -> None:
+    """A cache hit hands out data decoded from the entry file in that call: no object that an earlier caller also holds."""
+    ctx.rule("C12-K4", "load_cache returns what it decoded from the file in this call (or the empty miss value)", 2)
+    prog = ctx.prog
+    load = prog.func(CM + ".load_cache")
+    decoded = set()
+    for n in own_nodes(load.node):
+        if isinstance(n, ast.Assign) and len(n.targets) == 1 and isinstance(n.targets[0], ast.Name) and isinstance(n.value, ast.Call) and unparse(n.value.func) in ("json.load", "json.loads"):
+            decoded.add(n.targets[0].id)
+    for r in [n for n in own_nodes(load.node) if isinstance(n, ast.Return) and n.value is not None]:
+        v = r.value
+        ok = (isinstance(v, ast.Name) and v.id in decoded) or (isinstance(v, ast.Dict) and not v.keys) or (isinstance(v, ast.Call) and unparse(v.func) in ("dict", "json.load", "json.loads"))
+        ctx.instance("C12-K4", "load_cache: return %s" % unparse(v)[:40], load.loc(r), ok=ok)
+        if not ok:
+            ctx.finding("C12-K4", "CacheManager.load_cache:returns-held-object", load.loc(r), "load_cache returns %s, an object kept by the manager, instead of freshly decoded data: rows handed to an earlier caller (and edited there) are served again on the next hit" % unparse(v)[:40])
+
+
 def check(ctx) -> None:
     rule_k1(ctx)
     rule_k2(ctx)
+    rule_k3(ctx)
+    rule_k4(ctx)
